@@ -44,7 +44,7 @@ def main():
         coqcopy = os.path.join(work, "coq")
         shutil.copytree(os.path.join(ROOT, "coq"), coqcopy)
         envx = {"PYMWP_REPO": tree, "VERIF_COQ_DIR": coqcopy, "VERIF_EVID_DIR": os.path.join(work, "evidence"),
-                "VERIF_REPLAY_DIR": os.path.join(work, "replays")}
+                "VERIF_REPLAY_DIR": os.path.join(work, "replays"), "VERIF_NO_SEED_CORPUS": "1"}
         rc, o = sh(["/venv/bin/python", os.path.join(ROOT, "tools", "check.py"), cid, "--tier", tier], cwd=ROOT, env=envx)
         # keep the replay file of the detection as part of the record
         rp = os.path.join(work, "replays", cid)
